@@ -6,6 +6,7 @@ CONSTANTS
   MaxIds = 14
   MaxCommits = 9
   MaxLocks = 4
+  MaxCrash = 0
   MaxDefers = 4
   RcRoots = FALSE
   AO = FALSE
